@@ -459,7 +459,8 @@ where
             let (props, consumed) = Properties::parse(&data[cursor..])?;
             cursor += consumed;
             validate_pubrel_properties(&props)?;
-            let prop_len = VariableByteInteger::from_u32(props.size() as u32).unwrap();
+            let prop_len = VariableByteInteger::from_len(props.size())
+                .map_err(|_| MqttError::MalformedPacket)?;
 
             (Some(prop_len), Some(props))
         } else {
@@ -473,7 +474,8 @@ where
 
         let pubrel = GenericPubrel {
             fixed_header: [FixedHeader::Pubrel.as_u8()],
-            remaining_length: VariableByteInteger::from_u32(remaining_size as u32).unwrap(),
+            remaining_length: VariableByteInteger::from_len(remaining_size)
+                .map_err(|_| MqttError::MalformedPacket)?,
             packet_id_buf,
             reason_code_buf,
             property_length,
